@@ -178,7 +178,7 @@ def r12_3(ctx: Ctx) -> RuleResult:
         "pointers": ["{m}.pointer()"],
     }
     for name, forms in want.items():
-        fn = q.methods.get(name)
+        fn = ctx.repo.find_method(q, name)  # (maybe inherited from a base that holds the views)
         if fn is None:
             raise AnalysisError(f"Query.{name} not found")
         from .c11 import _shape_error
